@@ -72,6 +72,9 @@ type Opts struct {
 	Versions       []config.ConsensusVerson // allowed consensus versions (default all)
 	NoShuffleSeeds bool
 	MostlyValidated bool // genesis identities are Verified/Human/Newbie with few exceptions
+	// BulkAccounts: this many further plain accounts in the genesis allocation (nobody holds their keys): large state
+	// trees, snapshots of several archive blocks
+	BulkAccounts int
 }
 
 type Scn struct {
@@ -200,6 +203,12 @@ func New(r *vfw.Run, o Opts) *Scn {
 		alloc[id.Addr] = config.GenesisAllocation{Balance: bal}
 		s.Extra = append(s.Extra, id)
 		s.byAddr[id.Addr] = id
+	}
+	for i := 0; i < o.BulkAccounts; i++ {
+		var a common.Address
+		a[0], a[1], a[2], a[3] = 0xb0, byte(i>>16), byte(i>>8), byte(i)
+		a[19] = byte(i * 7)
+		alloc[a] = config.GenesisAllocation{Balance: dnaMul(2)}
 	}
 	s.Cfg = &config.Config{
 		Network:          0x99,
